@@ -304,6 +304,11 @@ func MakeFiller(p *Plan, src string) node.Filler {
 				tx.Gas = 21000 + r.Uint64N(1<<20)
 				tx.Status = 1
 				tx.GasUsed = 1 + r.Uint64N(1<<30)
+				if r.IntN(6) == 0 {
+					// quantities that need all sixteen hex digits
+					tx.Nonce = ^uint64(0) - r.Uint64N(1<<20)
+					tx.GasUsed = 1<<60 + r.Uint64N(1<<62)
+				}
 				tx.EffGasPrice = new(big.Int).Add(randInt(r, 58, false), big.NewInt(11))
 				tx.ContractAddr = nonZeroBytes(r, 20)
 			} else {
@@ -318,6 +323,11 @@ func MakeFiller(p *Plan, src string) node.Filler {
 				tx.Gas = 21000 + r.Uint64N(1<<20)
 				tx.Status = byte(r.IntN(2))
 				tx.GasUsed = r.Uint64N(1 << 30)
+				if r.IntN(8) == 0 {
+					// quantities that need all sixteen hex digits
+					tx.Nonce = ^uint64(0) - r.Uint64N(1<<20)
+					tx.GasUsed = 1<<60 + r.Uint64N(1<<62)
+				}
 				tx.EffGasPrice = randInt(r, 64, false)
 				if r.IntN(4) == 0 {
 					tx.ContractAddr = nonZeroBytes(r, 20)
